@@ -423,13 +423,22 @@ struct FSelfV
 // ------------------------------------------------------------------------------------------------
 thread_local std::string g_strategy = "sum";
 
+// the accumulator returns a *reference* (to per-thread storage): emit() must hand out what the accumulator returns
+static thread_local int g_acc_result = 0;
 struct StratAcc
 {
   std::string strat;
   StratAcc() : strat(g_strategy) { g_strategy = "sum"; }
 
   template<typename It>
-  int operator()(It first, It last) const
+  int& operator()(It first, It last) const
+  {
+    g_acc_result = walk(first, last);
+    return g_acc_result;
+  }
+
+  template<typename It>
+  int walk(It first, It last) const
   {
     int r = 0;
     if (strat == "sum")
@@ -1732,8 +1741,24 @@ struct Interp
           }
           else
           {
-            int r = (a % 2 == 0) ? sig.emit(a) : sig(a);
-            return "r=" + std::to_string(r);
+            if constexpr (std::is_same<Sig, SigA>::value || std::is_same<Sig, TSigA>::value)
+            {
+              // accumulated: the result is the accumulator's own reference, not a copy of it
+              auto&& rr = (a % 2 == 0) ? sig.emit(a) : sig(a);
+              int r = rr;
+              static_assert(true, "");
+              if (&rr != &g_acc_result)
+              {
+                std::fprintf(stderr, "harness: emit() of an accumulated signal did not return the accumulator's result object\n");
+                std::abort();
+              }
+              return "r=" + std::to_string(r);
+            }
+            else
+            {
+              int r = (a % 2 == 0) ? sig.emit(a) : sig(a);
+              return "r=" + std::to_string(r);
+            }
           }
         });
         g_strategy = "sum";
